@@ -194,6 +194,11 @@ impl Env {
         if !self.path.is_empty() {
             let _ = std::fs::remove_file(&self.path);
         }
+        if self.store.is_none() {
+            if let Some(old) = self.disk.take() {
+                old.discard_contents();
+            }
+        }
         let path = self.next_path();
         let file = OpenOptions::new()
             .read(true)
